@@ -365,6 +365,47 @@ pub fn run_c13(args: &Args) -> Report {
             rep.sample(format!("project #{i}: trailing on/off verdicts {}/{}; relations {:?}", on.verdict, off.verdict, rel));
         }
     }
+    // the option is per run, not per role: a source that is built only because another file includes it (it is not an
+    // input itself) loses its final line ending with the option off exactly like a requested one
+    if args.shard == 0 {
+        for crlf in [false, true] {
+            let le = if crlf { "\r\n" } else { "\n" };
+            for how in ["include", "after"] {
+                let p = Project {
+                    files: vec![
+                        ("main.txt.txtpp".into(), format!("top{le}TXTPP#{how} part.txt{le}bottom{le}").into_bytes()),
+                        ("part.txt.txtpp".into(), format!("one{le}END of part{le}").into_bytes()),
+                    ],
+                    dirs: vec![],
+                    cmds: vec![],
+                    sources: vec!["main.txt.txtpp".into(), "part.txt.txtpp".into()],
+                    sig: vec![],
+                    expect_error: false,
+                };
+                let mut got: Vec<Option<Vec<u8>>> = vec![];
+                for trailing in [true, false] {
+                    materialize(&p, &runner.dir);
+                    let mut cfg = RunCfg::build_all();
+                    cfg.trailing = trailing;
+                    cfg.threads = 2;
+                    cfg.inputs = vec!["main.txt".to_string()];
+                    let idx = runner.run_here(&cfg, &p.cmds, vec![format!("dependency-only|{how}|{crlf}|{trailing}")], &format!("dependency-only source, {how}, trailing={trailing}"));
+                    got.push(runner.cases[idx].imp.after.files.get("part.txt").cloned());
+                }
+                let want_off = format!("one{le}END of part").into_bytes();
+                let want_on = format!("one{le}END of part{le}").into_bytes();
+                if got[0].as_ref() != Some(&want_on) || got[1].as_ref() != Some(&want_off) {
+                    let case = &runner.cases[runner.cases.len() - 1];
+                    let what = format!(
+                        "a source built only as a dependency ({how}): its output with the option on is {:?}, off {:?}; expected {:?} / {:?}",
+                        got[0].as_ref().map(|b| String::from_utf8_lossy(b).to_string()), got[1].as_ref().map(|b| String::from_utf8_lossy(b).to_string()),
+                        String::from_utf8_lossy(&want_on), String::from_utf8_lossy(&want_off)
+                    );
+                    rep.violation("oracle", &what, &replay_body(&case.before, &case.cfg, &case.cmds, &format!("# {what}\n")));
+                }
+            }
+        }
+    }
     compare_all(&mut rep, &runner, &model, "C13", "C13.trailing_only_final, C13.pass_trailing");
     runner.cleanup();
     rep
